@@ -4560,6 +4560,7 @@ static size_t ZSTD_compress_frameChunk(ZSTD_CCtx* cctx,
     BYTE* op = ostart;
     U32 const maxDist = (U32)1 << cctx->appliedParams.cParams.windowLog;
     S64 savings = (S64)cctx->consumedSrcSize - (S64)cctx->producedCSize;
+    ZSTD_VERIF_GHOST(size_t const zstd_verif_cap0 = dstCapacity;)
 
     assert(cctx->appliedParams.cParams.windowLog <= ZSTD_WINDOWLOG_MAX);
 
@@ -4567,7 +4568,10 @@ static size_t ZSTD_compress_frameChunk(ZSTD_CCtx* cctx,
     if (cctx->appliedParams.fParams.checksumFlag && srcSize)
         XXH64_update(&cctx->xxhState, src, srcSize);
 
-    while (remaining) {
+    while (remaining)
+    ZSTD_VERIF_LOOP(ZSTD_VERIF_CHUNK_LOOP(cctx, ip, (const BYTE*)src, remaining, srcSize, op, ostart, dstCapacity, zstd_verif_cap0, savings, lastFrameChunk))
+    {
+        ZSTD_VERIF_GHOST(ZSTD_VERIF_REBASE(ip, (const BYTE*)src); ZSTD_VERIF_REBASE(op, ostart);)
         ZSTD_matchState_t* const ms = &cctx->blockState.matchState;
         size_t const blockSize = ZSTD_optimalBlockSize(cctx, ip, remaining, blockSizeMax, cctx->appliedParams.cParams.strategy, savings);
         U32 const lastBlock = lastFrameChunk & (blockSize == remaining);
@@ -4606,12 +4610,14 @@ static size_t ZSTD_compress_frameChunk(ZSTD_CCtx* cctx,
                 if (cSize == 0) {  /* block is not compressible */
                     cSize = ZSTD_noCompressBlock(op, dstCapacity, ip, blockSize, lastBlock);
                     FORWARD_IF_ERROR(cSize, "ZSTD_noCompressBlock failed");
+                    ZSTD_VERIF_GHOST(ZSTD_VERIF_CHUNK_RAWHEADER(op, cSize, blockSize, lastBlock);)
                 } else {
                     U32 const cBlockHeader = cSize == 1 ?
                         lastBlock + (((U32)bt_rle)<<1) + (U32)(blockSize << 3) :
                         lastBlock + (((U32)bt_compressed)<<1) + (U32)(cSize << 3);
                     MEM_writeLE24(op, cBlockHeader);
                     cSize += ZSTD_blockHeaderSize;
+                    ZSTD_VERIF_GHOST(ZSTD_VERIF_CHUNK_HEADER(op, cSize, blockSize, lastBlock);)
                 }
             }  /* if (ZSTD_useTargetCBlockSize(&cctx->appliedParams))*/
 
@@ -4638,6 +4644,7 @@ static size_t ZSTD_compress_frameChunk(ZSTD_CCtx* cctx,
             assert(dstCapacity >= cSize);
             dstCapacity -= cSize;
             cctx->isFirstBlock = 0;
+            ZSTD_VERIF_GHOST(ZSTD_VERIF_CHUNK_BLOCK_DONE(blockSize, lastBlock);)
             DEBUGLOG(5, "ZSTD_compress_frameChunk: adding a block of size %u",
                         (unsigned)cSize);
     }   }
